@@ -56,7 +56,6 @@ pub open spec fn head_lit() -> Seq<u8> { seq![104u8, 101, 97, 100, 58] }
 
 // ================= parse_ttl (C09, C12) =================
 //@@ item file=src/store/ttl.rs fn=parse_ttl ret=r
-//@@ rewrite: map_err(|_| ==> map_err(|_e|
 //@@ rewrite: &s[ ==> str_from(s,
 //@@ rewrite: ..] ==> )
 //@@ spec
